@@ -1107,6 +1107,17 @@ func (x *Explorer) meta(k string, e ast.Expr) {
 			}
 		case *ast.TypeAssertExpr:
 			walk(e.X)
+		case *ast.SliceExpr:
+			walk(e.X)
+			if e.Low != nil {
+				walk(e.Low)
+			}
+			if e.High != nil {
+				walk(e.High)
+			}
+			if e.Max != nil {
+				walk(e.Max)
+			}
 		}
 	}
 	walk(e)
@@ -1210,6 +1221,21 @@ func (x *Explorer) render(sb *strings.Builder, e ast.Expr) bool {
 			return false
 		}
 		sb.WriteString(".(" + Str(e.Type) + ")")
+		return true
+	case *ast.SliceExpr:
+		if !x.render(sb, e.X) {
+			return false
+		}
+		sb.WriteString("[")
+		for i, part := range []ast.Expr{e.Low, e.High, e.Max} {
+			if i > 0 && (i == 1 || e.Slice3) {
+				sb.WriteString(":")
+			}
+			if part != nil && !x.render(sb, part) {
+				return false
+			}
+		}
+		sb.WriteString("]")
 		return true
 	case *ast.CallExpr:
 		if !x.PureCall(e) {
